@@ -234,7 +234,9 @@ def run_tunnel(case):
         key = "https_proxy" if secure else "http_proxy"
         from urllib.parse import quote
 
-        cred = (f"{quote(auth[0], safe='')}:{quote(auth[1], safe='')}@" if auth else "")
+        # in the userinfo of a URL the sub-delimiters (among them "+") stand for themselves; everything else is percent-encoded
+        safe = "" if case.get("quote_all", True) else "+!$&'()*,;="
+        cred = (f"{quote(auth[0], safe=safe)}:{quote(auth[1], safe=safe)}@" if auth else "")
         os.environ[key if case.get("lower", True) else key.upper()] = f"http://{cred}proxy.env" + (":8080" if case.get("envport", True) else "")
         pwant = ("proxy.env", 8080 if case.get("envport", True) else 80)
     else:
@@ -433,10 +435,10 @@ def tunnels(draw):
         "host": host, "port": draw(st.sampled_from([None, None, 8080, 443, 80, 9443])), "secure": draw(st.booleans()),
         "proxy_src": draw(st.sampled_from(["opt", "opt", "env", "env", "none"])), "no_proxy": entries,
         "np_src": draw(st.sampled_from(["opt", "env"])), "status": draw(st.sampled_from([200, 200, 200, 201, 204, 301, 403, 407, 500, 502, 100, 199])),
-        "auth": draw(st.sampled_from([None, None, ["user", "pass"], ["u", "p:w"], ["name", "secret word"], ["u" * 30, "p" * 27], ["u" * 30, "p" * 28],
+        "auth": draw(st.sampled_from([None, None, ["user", "pass"], ["u", "p:w"], ["name", "secret word"], ["svc+ws", "pa+ss+w0rd"], ["u%v", "100%!$&'()*,;="], ["u" * 30, "p" * 27], ["u" * 30, "p" * 28],
                                       ["a-rather-long-user-name@corp.example", "an even longer pass phrase with blanks 0123456789 0123456789 0123456789"]])),
         "api": draw(st.sampled_from(["connect", "create_connection", "app"])), "lower": draw(st.booleans()), "envport": draw(st.booleans()),
-        "phdr": draw(st.booleans()), "reply_cut": draw(st.sampled_from([None, None, 1, 2, 3, 4, 5, 10, 20])),
+        "phdr": draw(st.booleans()), "quote_all": draw(st.booleans()), "reply_cut": draw(st.sampled_from([None, None, 1, 2, 3, 4, 5, 10, 20])),
     }
     if draw(st.integers(0, 3)) == 0:
         return {"host": host, "redirect_to": draw(st.sampled_from(NAMES + IP_HOSTS[:6] + ["example.com", "api.example.com", "badexample.com"])),
